@@ -351,7 +351,11 @@ RTRLIB_EXPORT int rtr_mgr_init(struct rtr_mgr_config **config_out, struct rtr_mg
 	spki_table = lrtr_malloc(sizeof(*spki_table));
 	if (!spki_table)
 		goto err;
-	spki_table_init(spki_table, spki_update_fp);
+	if (spki_table_init(spki_table, spki_update_fp) != SPKI_SUCCESS) {
+		lrtr_free(spki_table);
+		spki_table = NULL;
+		goto err;
+	}
 
 	config->pfx_table = pfxt;
 	config->spki_table = spki_table;
